@@ -232,7 +232,153 @@ theorem settled_final (s : St) (op : Op) (w : Nat) (f : FState) (hw : s.futs[w]?
   | raceSet => simp only [step]; exact hfd _ (hset _ _ (by simpa [advance] using hw))
   | raceCancel x => simp only [step]; exact hfd _ (hcancel _ x (by simpa [advance] using hw))
 
+/-! #### TimeoutError only comes from the wait's own deadline -/
+
+theorem resolveAll_cases (futs : List FState) (v : FState) (ws : List Nat) (w : Nat) :
+    (resolveAll futs v ws).1[w]? = futs[w]? ∨ ((resolveAll futs v ws).1[w]? = some v ∧ w ∈ ws) := by
+  induction ws generalizing futs with
+  | nil => exact Or.inl rfl
+  | cons a ws ih =>
+    by_cases ha : isPend futs a = true
+    · rw [resolveAll_pos ha]
+      rcases ih (futs.set a v) with h | h
+      · rw [h, List.getElem?_set]
+        split
+        · rename_i e; subst e
+          right
+          refine ⟨?_, by simp⟩
+          simp [isPend_lt ha]
+        · exact Or.inl rfl
+      · exact Or.inr ⟨h.1, List.mem_cons_of_mem _ h.2⟩
+    · rw [resolveAll_neg (by simpa using ha)]
+      rcases ih futs with h | h
+      · exact Or.inl h
+      · exact Or.inr ⟨h.1, List.mem_cons_of_mem _ h.2⟩
+
+/-- `s'` got its `TimeoutError`s from `s`'s timers only, and scheduled no new ones -/
+def TS (s s' : St) : Prop :=
+  (∀ w, s'.futs[w]? = some .timeout → s.futs[w]? = some .timeout ∨ ∃ t ∈ s.timers, t.2 = w) ∧
+  (∀ t ∈ s'.timers, t ∈ s.timers)
+
+theorem TS.refl (s : St) : TS s s := ⟨fun _ h => Or.inl h, fun _ h => h⟩
+theorem TS.trans {a b c : St} (h1 : TS a b) (h2 : TS b c) : TS a c := by
+  refine ⟨fun w hw => ?_, fun t ht => h1.2 t (h2.2 t ht)⟩
+  rcases h2.1 w hw with h | ⟨t, ht, e⟩
+  · exact h1.1 w h
+  · exact Or.inr ⟨t, h1.2 t ht, e⟩
+
+theorem ts_purge (s : St) : TS s (purge s) :=
+  ⟨fun _ h => Or.inl h, fun t ht => (List.mem_filter.mp ht).1⟩
+
+theorem ts_fireDue (s : St) : TS s (fireDue s).1 := by
+  unfold fireDue
+  refine ⟨fun w hw => ?_, fun t ht => (List.mem_filter.mp ht).1⟩
+  simp only at hw
+  rcases resolveAll_cases s.futs .timeout
+      (sortNat ((s.timers.filter (fun t => t.1 ≤ s.now)).map (·.2))) w with h | h
+  · rw [h] at hw; exact Or.inl hw
+  · right
+    have := mem_sortNat.mp h.2
+    simp only [List.mem_map, List.mem_filter] at this
+    obtain ⟨t, ⟨ht, _⟩, e⟩ := this
+    exact ⟨t, ht, e⟩
+
+theorem ts_settle (s : St) : TS s (settle s).1 := by
+  unfold settle
+  exact TS.trans (TS.trans (ts_purge s) (ts_fireDue _)) (ts_purge _)
+
+theorem ts_cancel (s : St) (x : Nat) : TS s (cancel s x).1 := by
+  unfold cancel; split
+  · refine ⟨fun w hw => ?_, fun _ h => h⟩
+    simp only at hw
+    rw [List.getElem?_set] at hw
+    split at hw
+    · split at hw <;> simp at hw
+    · exact Or.inl hw
+  · exact TS.refl s
+
+theorem ts_set (s : St) (raced : List Nat) (hr : ∀ w ∈ raced, ∃ t ∈ s.timers, t.2 = w) :
+    TS s (set s raced).1 := by
+  unfold set; split
+  · exact TS.refl s
+  · refine ⟨fun w hw => ?_, fun _ h => h⟩
+    simp only at hw
+    generalize hf1 : (resolveAll s.futs FState.timeout
+      (List.filter (fun x => raced.contains x) (sortNat s.waiters))) = r1 at hw
+    rcases resolveAll_cases r1.1 (.result 0) (sortNat s.waiters) w with h | h
+    · rw [h, ← hf1] at hw
+      rcases resolveAll_cases s.futs .timeout
+          (List.filter (fun x => raced.contains x) (sortNat s.waiters)) w with h' | h'
+      · rw [h'] at hw; exact Or.inl hw
+      · right
+        have := (List.mem_filter.mp h'.2).2
+        exact hr w (by simpa using this)
+    · rw [h.1] at hw; simp at hw
+
+theorem ts_advance (s : St) : TS s (advance s).1 := by unfold advance; exact ⟨fun _ h => Or.inl h, fun _ h => h⟩
+
+/-- an existing wait fails with `TimeoutError` during an op only if one of its own timers was scheduled
+(and, by `fireDue`, due); `set`, `clear`, `cancel` and other waits' deadlines never time a wait out -/
+theorem timeout_only_by_own_deadline (s : St) (op : Op) (w : Nat) (hw : w < s.futs.length)
+    (ht : (step s op).1.futs[w]? = some .timeout) :
+    s.futs[w]? = some .timeout ∨ ∃ t ∈ s.timers, t.2 = w := by
+  have hfd : ∀ (t : St), TS t (purge (fireDue t).1) := fun t => TS.trans (ts_fireDue t) (ts_purge _)
+  cases op with
+  | wait d =>
+    simp only [step] at ht
+    rcases (ts_settle _).1 w ht with h | ⟨t, htm, e⟩
+    · left
+      unfold wait at h; split at h <;> simp only at h <;> rwa [List.getElem?_append_left hw] at h
+    · unfold wait at htm
+      split at htm
+      · exact Or.inr ⟨t, htm, e⟩
+      · simp only at htm
+        cases d with
+        | none => exact Or.inr ⟨t, htm, e⟩
+        | some d =>
+          simp only [List.mem_append, List.mem_singleton] at htm
+          rcases htm with htm | rfl
+          · exact Or.inr ⟨t, htm, e⟩
+          · simp at e; omega
+  | set => simp only [step] at ht; exact (TS.trans (ts_set s [] (by simp)) (ts_settle _)).1 w ht
+  | clear => simp only [step] at ht; exact (ts_settle { s with flag := false }).1 w ht
+  | fire => simp only [step] at ht; exact (TS.trans (ts_advance s) (ts_settle _)).1 w ht
+  | cancel x => simp only [step] at ht; exact (TS.trans (ts_cancel s x) (ts_settle _)).1 w ht
+  | raceSet =>
+    simp only [step] at ht
+    refine (TS.trans (TS.trans (ts_advance s) (ts_set _ _ ?_)) (hfd _)).1 w ht
+    intro x hx
+    simp only [List.mem_map, List.mem_filter] at hx
+    obtain ⟨t, ⟨htm, _⟩, e⟩ := hx
+    exact ⟨t, htm, e⟩
+  | raceCancel x =>
+    simp only [step] at ht
+    exact (TS.trans (TS.trans (ts_advance s) (ts_cancel _ x)) (hfd _)).1 w ht
+
+/-- the clauses of "a wait completes iff the event is set at or after the call and before its deadline,
+otherwise TimeoutError", together, for every history -/
+theorem event_wait_iff (ops : List Op) :
+    -- wait on a set event completes at once
+    (∀ d, (after ops).flag = true →
+        (step (after ops) (.wait d)).1.futs[(after ops).futs.length]? = some (.result 0)) ∧
+    -- a later set completes every pending wait; while set, nobody is pending
+    (∀ w, isPend (after ops).futs w = true → (step (after ops) .set).1.futs[w]? = some (.result 0)) ∧
+    ((after ops).flag = true → ∀ w, isPend (after ops).futs w = false) ∧
+    -- reaching the earliest deadline fails the wait that owns it, if still pending
+    (∀ t, minTimer (after ops).timers = some t → isPend (after ops).futs t.2 = true →
+        (step (after ops) .fire).1.futs[t.2]? = some .timeout) ∧
+    -- and TimeoutError has no other source
+    (∀ op w, isPend (after ops).futs w = true → (step (after ops) op).1.futs[w]? = some .timeout →
+        ∃ t ∈ (after ops).timers, t.2 = w) := by
+  refine ⟨fun d h => wait_when_set _ d h, fun w h => set_completes ops w h,
+    fun h w => set_means_nobody_waits ops h w, fun t h1 h2 => deadline_times_out _ t h1 h2, ?_⟩
+  intro op w hp ht
+  rcases timeout_only_by_own_deadline _ op w (isPend_lt hp) ht with h | h
+  · unfold isPend at hp; rw [h] at hp; simp at hp
+  · exact h
+
 end Event
+
 /-! ### refinement to the sequential specifications (stated, not proved: tie-only, see docs/C34.md) -/
 
 def Cond.refines_spec_goal : Prop :=
